@@ -1719,9 +1719,12 @@ impl Compiler {
                 self.compile_load_non_local(result_register, id);
                 result
             } else {
+                // The value isn't used, but the id is still loaded (it might not exist).
+                // The temporary register is released here, the caller isn't expecting a result.
                 let register = self.push_register()?;
                 self.compile_load_non_local(register, id);
-                CompileNodeOutput::with_temporary(register)
+                self.pop_register()?;
+                CompileNodeOutput::none()
             }
         };
 
